@@ -119,6 +119,8 @@ func (h *Handler) receive(ctx context.Context, conn *net.UDPConn, queue chan dat
 				switch length, index, ok := parseHeader(buffer[:8]); {
 				case length == 0 && index == -1 && !ok:
 					h.onError(conn, core.InvalidRequestError{})
+				case length != n-8:
+					h.onError(conn, core.InvalidRequestError{})
 				case length > h.Service.MaxRequestLength:
 					h.sendResponse(ctx, queue, index, nil, core.ErrRequestEntityTooLarge, addr)
 				default:
